@@ -91,11 +91,18 @@ record by record ((BioSequenceSlice).Merge), that set is computed over the whole
 			if sfd, sp := c.FindFunc("pkg/obiseq", "(BioSequenceSlice).Merge"); sfd != nil {
 				sinfo := sp.TypesInfo
 				k2 := "pkg/obiseq.(BioSequenceSlice).Merge:statistics-of-the-whole-class"
-				var loop *ast.RangeStmt
+				var loop ast.Node
 				ast.Inspect(sfd.Body, func(n ast.Node) bool {
-					if r, ok := n.(*ast.RangeStmt); ok && loop == nil {
+					var lbody *ast.BlockStmt
+					switch x := n.(type) {
+					case *ast.RangeStmt:
+						lbody = x.Body
+					case *ast.ForStmt:
+						lbody = x.Body
+					}
+					if r := n; lbody != nil && loop == nil {
 						pair := false
-						ast.Inspect(r.Body, func(m ast.Node) bool {
+						ast.Inspect(lbody, func(m ast.Node) bool {
 							if call, ok := m.(*ast.CallExpr); ok {
 								if f := callee(sinfo, call); f != nil && f.Name() == "Merge" {
 									pair = true
